@@ -287,7 +287,12 @@ Definition install (t : tstate) (it : item) (f : fault) : tstate * bool :=
   | _ =>
       match iold it, f_lookup (ipath it) (troot t) with
       | None, None => move_into_place t it f                       (* createFile *)
-      | None, Some _ => (problem t (ipath it), false)              (* rename without replace onto existing content *)
+      | None, Some _ =>                                            (* rename without replace onto existing content *)
+          match provide (tstore t) (ipath it) (idigest it) with
+          | None => ({| troot := troot t; tstore := tstore t; tmissing := true;
+                        tproblems := ipath it :: tproblems t |}, false)
+          | Some _ => (problem t (ipath it), false)
+          end
       | Some d0, Some c0 =>
           if negb (String.eqb (H c0) d0) then (problem t (ipath it), false)   (* ensureExpectedFile *)
           else if String.eqb d0 (idigest it) then (t, true)        (* same content: permissions only *)
